@@ -15,7 +15,7 @@ From Falco Require Import Base.TablesBase Model.ScopeMask Model.LintTables Model
   Model.InterpAssign Model.InterpVars Proofs.ScopeMaskProofs Proofs.TablesProofs Proofs.InterpAssignProofs Proofs.Tables2Proofs Proofs.InterpVarsProofs.
 From Falco Require Import Gen.LintConsts Gen.LintVars Gen.LintDyn Gen.LintFuncs Gen.RefVars Gen.RefFuncs Gen.InterpFuncs.
 From Falco Require Import Gen.InterpVars.
-From Falco Require Import Gen.ObsVars Gen.ObsFuncs Gen.ObsStmts Gen.ObsOps Gen.ObsWide Gen.ObsCoerce Gen.ObsInferred Gen.KnownGaps.
+From Falco Require Import Gen.ObsVars Gen.ObsFuncs Gen.ObsStmts Gen.ObsOps Gen.ObsWide Gen.ObsCoerce Gen.ObsInferred Gen.ObsIdArgs Gen.KnownGaps.
 Import ListNotations.
 Local Open Scope N_scope.
 Local Open Scope string_scope.
@@ -227,6 +227,17 @@ Proof. exact op_variants_eq_base. Qed.
 Theorem C05_obs_op_variants_domain : map obs_op_key obs_op_variants = op_rows.
 Proof. exact obs_op_variants_domain. Qed.
 
+(* ---- identifier arguments: every built-in with an ID-typed argument and the add statement x idarg_idents x 9 scopes,
+   "interp" bit = the simulator raises no error attributable to the identifier (relative to the baseline cell with an
+   identifier of the correct kind; see lib/tables_util.py idarg_verdict) *)
+Theorem C05_obs_idargs_domain : map (fun r => match r with (fn, i, _, _) => (fn, i) end) obs_idargs = idarg_rows.
+Proof. exact obs_idargs_domain. Qed.
+Theorem C05_lint_sub_interp_idargs : forall fn i lint interp p ident s,
+  In (fn, i, lint, interp) obs_idargs -> In (p, ident, s) idarg_cells ->
+  N.testbit lint p = true ->
+  N.testbit interp p = true \/ gap_covers "idarg-interp" fn (sig_digit i) p = true.
+Proof. exact lint_sub_interp_idargs. Qed.
+
 (* ---- scopes obtained by the linter's CALL-GRAPH INFERENCE (no @scope annotation): the use in the innermost of
    1..3 un-annotated helpers called from every pair (thorough tier: also every triple, depth 2) of lifecycle
    subroutines.  Domain: inferred_rows (representatives of every accessor class / function scope mask in the quick
@@ -320,6 +331,8 @@ Print Assumptions C05_ops_left_models_eq_observed.
 Print Assumptions C05_obs_ops_left_domain.
 Print Assumptions C05_op_variants_eq_base.
 Print Assumptions C05_obs_op_variants_domain.
+Print Assumptions C05_obs_idargs_domain.
+Print Assumptions C05_lint_sub_interp_idargs.
 Print Assumptions C05_obs_inferred_domain.
 Print Assumptions C05_lint_inferred_eq_model.
 Print Assumptions C05_lint_inferred3_eq_model.
